@@ -4,7 +4,8 @@
 d="$1"; name=$(echo "$d" | tr '/' '_')
 wt=/tmp/wt-confirm-$name
 git -C /repo worktree remove --force $wt >/dev/null 2>&1
-git -C /repo worktree add --detach $wt HEAD >/dev/null 2>&1 || { echo "{\"seed\":\"$d\",\"error\":\"worktree\"}"; exit 1; }
+ok=0; for try in 1 2 3 4 5 6 7 8; do git -C /repo worktree add --detach $wt HEAD >/dev/null 2>&1 && { ok=1; break; }; sleep 1; git -C /repo worktree prune >/dev/null 2>&1; done
+[ $ok = 1 ] || { echo "{\"seed\":\"$d\",\"error\":\"worktree\"}"; exit 1; }
 base_rc=99; mut_rc=99; tests="not run"; applies=no
 if [ -x "$d/run.sh" ]; then ( cd "$d" && ./run.sh $wt >/tmp/confirm-$name-base.log 2>&1 ); base_rc=$?; fi
 if git -C $wt apply "$d/patch.diff" 2>/dev/null; then
